@@ -48,6 +48,7 @@ from __future__ import annotations
 
 import json
 import math
+import os
 import random
 import time
 import warnings
@@ -55,7 +56,7 @@ from fractions import Fraction
 
 import numpy as np
 
-from .. import tlc, tlcx
+from .. import c15x, tlc, tlcx
 from ..evidence import Report
 from ..expr_eval import evaluate
 
@@ -237,6 +238,8 @@ def _worker(job):
     signal.signal(signal.SIGVTALRM, _on_timer)
     signal.setitimer(signal.ITIMER_VIRTUAL, CPU_LIMIT_S)
     try:
+        if job.get("x"):
+            return job["key"], c15x.solve_pair(job)       # extension: spec/OdeX.tla
         return job["key"], solve_one(job, _G["catalogue"], _G["trees"])
     except SolveTimeout as e:   # raised outside solve_one's own try block
         return job["key"], {"err": None, "msg": f"SolveTimeout: {e}", "t": CPU_LIMIT_S}
@@ -364,11 +367,28 @@ def run(tier: str, _select=None) -> int:
     worst_helper = helper_cases(rep, jets)
     rep.set("helper_worst_abs_dev", worst_helper)
 
+    # ---- extension (spec/OdeX.tla): smooth non-polynomial problems, boundary intervals, call forms ----------
+    resx, xdata = c15x.spec_run(wd)
+    rep.tlc(resx, "MC_OdeX")
+    if resx.status == "violation":
+        st = tlc.last_state(resx)
+        rep.violation(f"model:OdeX:{','.join(resx.violated)}:{st.get('pc')}:{st.get('idx')}",
+                      f"TLC: invariant(s) {resx.violated} of OdeX.tla violated; last state {st}", st)
+        return rep.finish()
+    c15x.set_data(xdata, trees)
+    rep.set("x_problems_in_model", len(xdata["probs"]))
+    rep.set("x_admissible_transformations", {e["iv"]: e["n"] for e in xdata["adm"]})
+    rep.set("x_helper_worst_rel_dev", c15x.helper_cases(rep, xdata, polyfun, coef_arg))
+    xjobs = c15x.make_jobs(xdata)
+    rep.set("x_solves_assigned_by_spec", len(xjobs))
+
     jobs = make_jobs(probs, tier, rng)
     rep.set("solves_assigned_by_spec", len(jobs))
     if _select is not None:
-        jobs = _select(jobs)
+        jobs = _select(jobs, False)
+        xjobs = _select(xjobs, True)
     elif tier == "quick":
+        xjobs = c15x.sample_quick(xjobs, random.Random(rep.seed + 15))
         # every order / interval / kind present: stratified sample, seeded
         rng.shuffle(jobs)
         fast = [j for j in jobs if j["type"] == "bvp" or j["method"] == "DOP853"]
@@ -388,12 +408,15 @@ def run(tier: str, _select=None) -> int:
         jobs = keep
     import multiprocessing as mp
     _G["catalogue"], _G["trees"] = catalogue, trees
-    results = {}
+    results, xresults = {}, {}
     t0 = time.time()
-    with mp.get_context("fork").Pool(16) as pool:
-        for key, out in pool.imap_unordered(_worker, jobs, chunksize=4):
-            results[key] = out
+    with mp.get_context("fork").Pool(POOL) as pool:
+        for key, out in pool.imap_unordered(_worker, jobs + xjobs, chunksize=4):
+            (xresults if key[0] == "x" else results)[key] = out
     rep.set("solve_wall_s", round(time.time() - t0, 1))
+    rep.set("x_calibration", c15x.report(rep, xjobs, xresults))
+    rep.set("x_acceptance", {"accuracy": c15x.ACCEPT, "same_numbers": c15x.ACCEPT_SAME, "float32": c15x.ACCEPT_F32,
+                             "ic_factor": c15x.IC_FACTOR, "bc_factor": c15x.BC_FACTOR})
 
     calib = {}
     bykey = {j["key"]: j for j in jobs}
@@ -438,6 +461,44 @@ def run(tier: str, _select=None) -> int:
 
 
 THOROUGH_FRACTION = {"RK45": 0.35, "Radau": 0.1}
+POOL = 16
+
+
+_SCALAR_OLD = """    def interpolate_wrt_original_var(pt):
+        transf_pts = tf.transform(pt)
+        # Row is which func/deriv and Col is points.
+        interpolated = result.sol(transf_pts)
+        # If derivatives are not wanted then only return y(x).
+        if no_derivs:
+            if interpolated.ndim == 1:
+                return interpolated
+            return interpolated[0, :]
+        deriv_funcs = [tf.deriv, tf.deriv2, tf.deriv3]
+        new_interpolate = np.zeros(interpolated.shape)
+        new_interpolate[0, :] = interpolated[0, :]
+        for i in range(interpolated.shape[1]):
+            # Calculate the jacobian dr/dx of the original domain.
+            deriv = _derivative_transformation_matrix(deriv_funcs, pt[i], order - 1)
+            new_interpolate[1:, i] = deriv.dot(interpolated[1:, i])
+        return new_interpolate
+"""
+_SCALAR_NEW = """    def interpolate_wrt_original_var(pt):
+        pt = np.asarray(pt, dtype=float)
+        is_scalar = pt.ndim == 0
+        pt = np.atleast_1d(pt)
+        transf_pts = tf.transform(pt)
+        interpolated = result.sol(transf_pts)
+        if no_derivs:
+            values = interpolated[0, :]
+            return values[0] if is_scalar else values
+        deriv_funcs = [tf.deriv, tf.deriv2, tf.deriv3]
+        new_interpolate = np.zeros(interpolated.shape)
+        new_interpolate[0, :] = interpolated[0, :]
+        for i in range(interpolated.shape[1]):
+            deriv = _derivative_transformation_matrix(deriv_funcs, float(pt[i]), order - 1)
+            new_interpolate[1:, i] = deriv.dot(interpolated[1:, i])
+        return new_interpolate[:, 0] if is_scalar else new_interpolate
+"""
 
 
 def selftest(tier: str = "quick") -> int:
@@ -465,10 +526,44 @@ def selftest(tier: str = "quick") -> int:
                                                                     "conds.append(bonds[i if deriv == 0 else 1 - i][deriv] - value)")),
         ("constant-int-coefficient-ignored", src(M, "        if isinstance(val, Number):\n            coeff_mtr[i] += val",
                                                  "        if isinstance(val, Number):\n            coeff_mtr[i] += val if not isinstance(val, int) else 0 * val + (val if val >= 0 else 0)")),
-        ("REPAIRED-scalar-point-derivatives", src(M, "    derivs_at_pt = np.array([dev(point) for dev in deriv_func_list], dtype=float)\n    deriv_transf",
-                                                  "    derivs_at_pt = np.array([np.ravel(np.asarray(dev(np.array([point], dtype=float)), dtype=float))[0] for dev in deriv_func_list], dtype=float)\n    deriv_transf")),
+        # the repair of ca3b528 (derivatives of the transformation evaluated on a one-element array) taken back:
+        # LinearInfiniteRTransform solves raise again
+        ("REGRESSION-scalar-point-derivatives", src(M, "[np.ravel(np.asarray(dev(point_arr), dtype=float))[0] for dev in deriv_func_list]",
+                                                    "[dev(point) for dev in deriv_func_list]")),
+        # ---- mutants that only the clauses of the extension (spec/OdeX.tla, vf/c15x.py) can see --------------------
+        ("X-no-derivatives-returns-last-row", src(M, "            return interpolated[0, :]\n", "            return interpolated[-1, :]\n")),
+        ("X-domain-check-excludes-the-end-points", src(M, "if min(x_span) < transform.domain[0] or max(x_span) > transform.domain[1]:",
+                                                       "if min(x_span) <= transform.domain[0] or max(x_span) >= transform.domain[1]:")),
+        ("X-bvp-second-derivative-condition-reads-first", src(M, "conds.append(bonds[i][deriv] - value)",
+                                                              "conds.append(bonds[i][min(deriv, 1)] - value)")),
+        ("X-mapped-initial-derivatives-inherit-float32", src(M, "        y_derivs = solve(deriv, np.array(y0[1:]))\n",
+                                                             "        y_derivs = solve(deriv, np.array(y0[1:]))\n"
+                                                             "        if getattr(y0, 'dtype', None) == np.float32:\n"
+                                                             "            y_derivs = y_derivs.astype(np.float32)\n")),
+        ("X-returned-callables-share-the-last-result",
+         src(M, "    # Note this is its own function because it is used twice for solve_ode_ivp and bv.\n"
+                "    def interpolate_wrt_original_var(pt):\n        transf_pts = tf.transform(pt)\n"
+                "        # Row is which func/deriv and Col is points.\n        interpolated = result.sol(transf_pts)\n",
+                "    globals().setdefault('_LAST', {})['r'] = result\n"
+                "    def interpolate_wrt_original_var(pt):\n        transf_pts = tf.transform(pt)\n"
+                "        interpolated = _LAST['r'].sol(transf_pts)\n")),
+        ("X-constants-must-be-int-or-float", src(M, "        if isinstance(val, Number):\n            coeff_mtr[i] += val",
+                                                 "        if isinstance(val, (int, float)):\n            coeff_mtr[i] += val")),
+        ("X-right-hand-side-assumed-to-be-an-array", src(M, "    result = fx\n", "    result = fx.copy()\n")),
+        ("X-evaluation-points-sorted", src(M, "    def interpolate_wrt_original_var(pt):\n        transf_pts = tf.transform(pt)\n",
+                                           "    def interpolate_wrt_original_var(pt):\n        pt = np.sort(pt)\n        transf_pts = tf.transform(pt)\n")),
+        ("X-random-initial-guess-has-one-row-too-many", src(M, "initial_guess_y = np.random.rand(order, x.size)",
+                                                            "initial_guess_y = np.random.rand(order + 1, x.size)")),
+        ("X-coefficient-callables-of-the-transformed-equation-see-r", src(M, "    coeff_b = _transform_ode_from_rtransform(coeff_a, tf, x)\n",
+                                                                          "    coeff_b = _transform_ode_from_rtransform(coeff_a, tf, tf.transform(x))\n")),
+        # the repair proposed in gen/proposals/C15-transformed-callable-scalar-and-list-points.diff: the check must
+        # accept it (exit 0) - and then without any KNOWN-FINDING line for the evaluation forms
+        ("REPAIRED-transformed-callable-accepts-scalars-and-lists", src(M, _SCALAR_OLD, _SCALAR_NEW)),
     ]
-    return run_mutants(PROP, run, tier, mutants, expect={"REPAIRED-scalar-point-derivatives": 0})
+    only = os.environ.get("C15_MUTANTS")
+    if only:
+        mutants = [m for m in mutants if any(m[0].startswith(o) for o in only.split(","))]
+    return run_mutants(PROP, run, tier, mutants, expect={"REPAIRED-transformed-callable-accepts-scalars-and-lists": 0})
 
 
 def replay(path: str) -> int:
@@ -476,11 +571,15 @@ def replay(path: str) -> int:
     with open(path) as f:
         v = json.load(f)
     c = v.get("case") or {}
-    if "problem" not in c:
+    if "problem" not in c and "xkey" not in c:
         return run(v.get("tier", "quick"))
-    pid, solve, tname = c["problem"]["id"], c["solve"], c["transform"]
+    xkey = c.get("xkey")
+    if xkey is None:
+        pid, solve, tname = c["problem"]["id"], c["solve"], c["transform"]
 
-    def pick(jobs):
+    def pick(jobs, isx):
+        if xkey is not None or isx:
+            return [j for j in jobs if isx and xkey is not None and list(j["key"][1:]) == list(xkey)]
         _, _, _, catalogue, _ = _REPLAY["spec"]
         out = []
         for j in jobs:
